@@ -347,6 +347,7 @@ def judge (_id : String) (lines : Array String) : Verdict := Id.run do
       st := { st with srcsDone := (st.bs, st.bgroups) :: st.srcsDone, bs := [], bgroups := [] }
     | ["replay"] =>
       if obs.head? == some "recerr" then return .badop s!"the recorder reported an error: {l}"
+      if obs.head? == some "fileerr" then return .specfail "replay-succeeds" "the recording file could not be written or opened by the service's writers/readers"
       if obs.head? == some "hang" then return .specfail "ends-after-last" "the replay did not finish (hang)"
       if obs.head? == some "panic" then return .specfail "replay-succeeds" "the replay panicked"
       return (if st.mode == "stream" then judgeStream st obs else judgeBatch st obs)
